@@ -322,6 +322,10 @@ def build(tier):
         O.append(Obligation('miner.withdraw_balance[vesting entries=%d]' % n, run_withdraw(n), props_withdraw, scenario=miner_scenario('WithdrawBalance', lambda E, res, m: {'amount_requested': str(ev(m, fget(E, res.ctx.env['params'], 0, TOKEN).v))}),
                             descr='withdraw pays min(requested, balance - vesting - deposits - pledge - fee debt, quota) to the beneficiary only, on request of owner/beneficiary, never with pending early terminations; fee debt burnt in full; solvency kept',
                             bounds='%d vesting entries; arbitrary MinerInfo / term; one call' % n, max_paths=100000))
+    from . import miner_money
+    for o in miner_money.build_for('C14', tier):
+        if o.name == 'miner.constructor':
+            O.append(o)
     O.append(Obligation('miner.locked_reward_from_reward', run_locked_reward, props_locked_reward,
                         descr='75% of rewards lock, vesting spec = 180 days / daily', bounds='reward unbounded', max_paths=100))
     return O
